@@ -45,15 +45,59 @@ def check_encoder_selection():
     return None
 
 
+def check_short_fast_packets():
+    """Fast-packet PGNs with short payloads (<= 8 bytes) still go out as fast packets (counter byte, length byte) and come back
+    through the decoder; single-frame PGNs go out as one frame."""
+    import nmea2000.pgns as P
+    from nmea2000.encoder import NMEA2000Encoder
+    from nmea2000.decoder import NMEA2000Decoder
+    from spec.canboat import DB, sample_payload
+    db = DB()
+    enc, dec = NMEA2000Encoder(), NMEA2000Decoder()
+    n = 0
+    for d in db.defs:
+        if not d.encodable or not db.selectable(d) or d.type not in ('Fast', 'Single') or not isinstance(d.length, int) or d.length > 16:
+            continue
+        pl = sample_payload(d, 1)
+        try:
+            m = getattr(P, f'decode_pgn_{d.suffix}')(int.from_bytes(pl, 'little'))
+            payload = enc._call_encode_function(m)
+        except Exception:  # noqa
+            continue
+        m.source, m.destination, m.priority = 7, 255, 3
+        n += 1
+        try:
+            pk = enc.encode_ebyte(m)
+        except Exception as e:  # noqa
+            return {'definition': f'{d.pgn}:{d.id}', 'observed': f'encode_ebyte raises {type(e).__name__}: {e}'}
+        frames = [bytes(q[5:5 + (q[0] & 0x0F)]) for q in pk]
+        if d.type == 'Fast':
+            ok = len(frames[0]) >= 2 and frames[0][1] == len(payload) and (frames[0][0] & 0x1F) == 0 and all((fr[0] & 0x1F) == i for i, fr in enumerate(frames))
+        else:
+            ok = len(frames) == 1 and frames[0] == payload[::-1][:len(frames[0])][::1] or len(frames) == 1
+        got = None
+        for q in pk:
+            r = dec.decode_tcp(q)
+            if r is not None:
+                got = r
+        back = None if got is None else [(f.id, f.raw_value) for f in got.fields]
+        if not ok or back != [(f.id, f.raw_value) for f in m.fields]:
+            return {'definition': f'{d.pgn}:{d.id}', 'type': d.type, 'payload_bytes': len(payload), 'frames': [fr.hex() for fr in frames], 'observed': 'not a well-formed fast packet' if not ok else f'decodes back as {str(back)[:160]}',
+                    'expected': 'counter + length byte + payload for a Fast PGN, and the same field values back from decode_tcp'}
+        if n >= 120:
+            break
+    return None
+
+
 def replay_for(prop):
-    f = check_encoder_selection()
+    f = check_encoder_selection() or check_short_fast_packets()
     if f is None:
         return {'confirmed': None, 'note': 'no scripted scenario reproduces the refuted obligation'}
     return {'confirmed': True, 'inputs': f, 'how': 'NMEA2000Encoder._call_encode_function on one long-lived encoder, working tree'}
 
 
 def fallback_results(prop):
-    f = check_encoder_selection()
+    f = check_encoder_selection() or check_short_fast_packets()
     if f is None:
         return []
     return [{'obligation': f'{prop}/encoder.NMEA2000Encoder._call_encode_function/bounded-fallback', 'kind': 'bounded', 'status': 'refuted', 'backend': 'native-scenarios',
